@@ -84,8 +84,13 @@ def _events_for(rng, ndialogs, peers, long=False):
                     nxt[d] += 1
             rng.shuffle(g)
             groups.append(g)
-        else:
+        elif kind < 0.9:
             groups.append(["Q:%s:-:%d:r%d" % (rng.choice(METHODS), rng.randrange(1, 99), next(rid))])
+        else:
+            # a legacy client: several requests that share one cookie-less Via branch (RFC 2543 matching keeps them apart)
+            m = rng.choice("onmx")
+            for c in range(1, rng.randrange(3, 5)):
+                groups.append(["G:%s:-:%d:r%d" % (m if rng.random() < 0.7 else rng.choice("onmxi"), c, next(rid))])
     return groups
 
 
@@ -179,7 +184,8 @@ def gen_cases(rng, tier):
 def model_case(case, impl):
     if case[2] == "ua":
         return [case[0], "c08", "", "-", "", "1"]        # no model run for the user-agent scenarios: decided by the oracle
-    return case
+    # a legacy client's requests (G) are out-of-dialog requests like any other for the model: RFC 2543 matching keeps them apart
+    return case[:4] + [re.sub(r"(^|[,+])G:", r"\1Q:", case[4])] + case[5:]
 
 
 def _ua_requests(script):
@@ -216,6 +222,7 @@ def _ua_requests(script):
 def _ua_oracle(case, impl):
     if "PANIC" in impl:
         return ["panic: " + impl[-300:]]
+    impl = impl.replace("|branch=invite1|", "|branch=z9hG4bKinvite1|")      # a legacy caller's INVITE branch (setup lbranch)
     finals = collections.defaultdict(list)
     for m in re.finditer(r"W:SIP/2\.0_(\d+)_[^|]*\|cseq=(\d+)_(\w+)\|branch=([^|]*)\|\S*@(\d+)", impl):
         if int(m.group(1)) >= 200:
